@@ -282,6 +282,10 @@ class ElementList(MutableSequence):
             if self.element == child.parent:
                 if any(c is child for c in self.list):
                     return  # already a child of this element: it must not be listed twice
+                if self.element.parent is None and self.element.traversal_parent is not None:
+                    # receiving a real child is a write: an element that was only reached by traversal becomes real first
+                    # (if that is refused nothing has been listed yet, and the caller restores the child's pointers)
+                    self.element.set_parent_to_traversal()
                 self._remove_from_traversal_index(child)
                 self.list.append(child)
                 try:
